@@ -58,6 +58,40 @@ func GenSys(r *rng.R, id int) SysCase {
 			c.Ops = append(c.Ops, o)
 			continue
 		}
+		if k > 0 && r.Chance(3, 20) {
+			// the previous arguments again (fresh objects) with one field of one rule changed
+			p := c.Ops[k-1]
+			o := SysOp{Nil: p.Nil}
+			var idx []int
+			for j, t := range p.Rules {
+				if t == nil {
+					o.Rules = append(o.Rules, nil)
+					continue
+				}
+				x := *t
+				o.Rules = append(o.Rules, &x)
+				idx = append(idx, j)
+			}
+			if len(idx) > 0 {
+				t := o.Rules[idx[r.Intn(len(idx))]]
+				switch r.Intn(4) {
+				case 0:
+					t.ID = strconv.Itoa(k*100 + 77)
+				case 1:
+					t.MetricType = (t.MetricType + 1) % system.MetricTypeSize
+				case 2:
+					if t.TriggerCount >= 0 && t.TriggerCount <= 0.5 {
+						t.TriggerCount += 0.25
+					} else {
+						t.TriggerCount = 0.5
+					}
+				default:
+					t.Strategy = system.NoAdaptive + system.BBR - t.Strategy
+				}
+				c.Ops = append(c.Ops, o)
+				continue
+			}
+		}
 		var o SysOp
 		n := r.Intn(5)
 		if n == 0 {
@@ -389,6 +423,52 @@ func GenOut(r *rng.R, id int) OutCase {
 			}
 			c.Ops = append(c.Ops, o)
 			continue
+		}
+		if k > 0 && r.Chance(3, 20) {
+			// the previous arguments again (fresh objects) with one field of one rule changed
+			p := c.Ops[k-1]
+			o := OutOp{Kind: p.Kind, Res: p.Res}
+			var idx []int
+			for j, t := range p.Rules {
+				o.Rules = append(o.Rules, cloneOut(t))
+				if t != nil {
+					idx = append(idx, j)
+				}
+			}
+			if len(idx) > 0 {
+				t := o.Rules[idx[r.Intn(len(idx))]]
+				switch x := r.Intn(9); {
+				case x == 0:
+					t.EnableActiveRecovery = !t.EnableActiveRecovery
+				case x == 1:
+					if t.MaxEjectionPercent >= 0 && t.MaxEjectionPercent <= 0.5 {
+						t.MaxEjectionPercent += 0.25
+					} else {
+						t.MaxEjectionPercent = 0.5
+					}
+				case x == 2:
+					t.RecoveryIntervalMs += 100
+				case x == 3:
+					t.RecycleIntervalS += 1
+				case x == 4:
+					t.MaxRecoveryAttempts += 1
+				case t.Rule == nil:
+					t.RecycleIntervalS += 2
+				case x == 5:
+					t.Rule.Threshold += 1
+					if t.Rule.Strategy != cb.ErrorCount {
+						t.Rule.Strategy = cb.ErrorCount
+					}
+				case x == 6:
+					t.Rule.RetryTimeoutMs += 500
+				case x == 7:
+					t.Rule.MinRequestAmount += 1
+				default:
+					t.Rule.StatIntervalMs += 1000
+				}
+				c.Ops = append(c.Ops, o)
+				continue
+			}
 		}
 		var o OutOp
 		if r.Chance(1, 2) {
